@@ -6,8 +6,18 @@ Bounded run-time contract check on the real readers.
   run_xml(tier, seed)   XMLReader(ignore_errors=False|True).from_string / from_file(file-like) / from_file(path),
                         ODMLReader('XML').from_string (strict) and odml.load (lenient) on
                         arbitrary strings, grammar-generated XML over the odML element names, mutations of valid files
+                        + the stored form of a file (section "stored form" below): every combination of encoding
+                        (UTF-8, ISO-8859-1, windows-1252, UTF-16 LE/BE; thorough: US-ASCII, UTF-16 without mark, UTF-32,
+                        ISO-8859-15, KOI8-R, Shift_JIS, EBCDIC), byte order mark, encoding declaration (missing, matching,
+                        wrong, unknown), ASCII-only / Latin-1 / windows-1252-specials / BMP / astral content, LF / CRLF / CR,
+                        files larger than a read buffer; byte strings that are no text at all (curated, all short ones,
+                        random damage of stored files); odd file names.  Entry points for these: path str, relative path,
+                        pathlib.Path, os.PathLike, open binary handle, open text handle, BytesIO, StringIO, read()-only
+                        object delivering 7-byte chunks, bytes, str - strict and lenient.
   run_dict(tier, seed)  DictReader(ignore_errors=False|True).to_odml, ODMLReader('JSON'|'YAML').from_string/from_file
                         on input shaped like an odML dictionary
+                        + stored forms of JSON / YAML files (encoding, byte order mark, escaped / raw non-ASCII, flow /
+                        block, line ends, file names) through ODMLReader.from_file / odml.load with path str and pathlib.Path
 
 Contract clauses (from the statement):
   only-ParserException   the call returns a Document or raises ParserException - no other exception type
@@ -18,8 +28,11 @@ Contract clauses (from the statement):
   lenient-warning        ... and a problem that is certainly present (unknown element / attribute / key) is recorded
   lenient-keeps-valid    ... and objects outside the part that was damaged are all kept
   wellformed             every returned document satisfies harness.wellformed(doc) == []
+A lenient call that lets a foreign exception through on acceptable input is reported under both only-ParserException
+and lenient-never-raises.  JSON / YAML files in a stored form the format definition does not oblige a reader to take
+(JSON with byte order mark or in UTF-16/32, Latin-1 bytes, ...) are judged for termination only.
 
-Scratch files: /verif/.work/c16/ (removed at the end).
+Scratch files: /verif/.work/c16/p<pid>/ (removed at the end).
 """
 from __future__ import annotations
 
@@ -49,7 +62,8 @@ from odml.tools.dict_parser import DictReader                  # noqa: E402
 from odml.tools.odmlparser import ODMLReader                   # noqa: E402
 from odml.tools.parser_utils import ParserException, InvalidVersionException   # noqa: E402
 
-WORK = os.path.join(h.WORK, 'c16')
+WORK_ROOT = os.path.join(h.WORK, 'c16')
+WORK = os.path.join(WORK_ROOT, 'p%d' % os.getpid())        # per process: concurrent runs do not share files
 # the generator's own YAML (de)serialisation: libyaml when available (same resolver/constructor, only faster)
 _YDUMPER = getattr(yaml, 'CSafeDumper', yaml.SafeDumper)
 _YLOADER = getattr(yaml, 'CSafeLoader', yaml.SafeLoader)
@@ -83,6 +97,22 @@ def _run(fn, *args):
     finally:
         signal.alarm(0)
         signal.signal(signal.SIGALRM, old)
+
+
+def _fresh_work():
+    shutil.rmtree(WORK, ignore_errors=True)
+    try:
+        os.makedirs(WORK)
+    except FileNotFoundError:                # another run removed the (then empty) parent in between
+        os.makedirs(WORK)
+
+
+def _cleanup():
+    shutil.rmtree(WORK, ignore_errors=True)
+    try:
+        os.rmdir(WORK_ROOT)                  # only when no other run is using it
+    except OSError:
+        pass
 
 
 @contextlib.contextmanager
@@ -1252,11 +1282,15 @@ def run_xml(tier, seed):
              'matrix, missing elements, wrong nesting, attributes, namespaces, duplicates, PI/comment/CDATA/entities, '
              'prolog/epilog, root variants); random trees; delete/duplicate/swap/move/rename/retext of every node of '
              'generated valid files; each x 8 entry points (strict/lenient x from_string/from_file file-like/path, '
-             'ODMLReader.from_string, odml.load); class = (family, feature, entry, mode)',
+             'ODMLReader.from_string, odml.load); stored forms of a small file: encoding x byte order mark x declared '
+             'encoding (missing/matching/wrong/unknown) x content range x line ends x valid/unknown element/other '
+             'version/larger than a buffer, byte strings that are no text (curated, all short ones in 2-4 frames, random '
+             'damage of stored files), 36 file names; each x up to 26 entry points (path str, relative, pathlib.Path, '
+             'os.PathLike, binary handle, text handle, BytesIO, StringIO, chunked read()-only object, bytes, str; '
+             'XMLReader strict/lenient, ODMLReader, odml.load); class = (family, feature, content checksum, entry, mode)',
         exhaustive=False)
     rnd = random.Random('c16-xml-%s' % seed)
-    shutil.rmtree(WORK, ignore_errors=True)
-    os.makedirs(WORK)
+    _fresh_work()
     path = os.path.join(WORK, 'input.xml')
     chk = _Checker(col, 'C16.xml')
     seen = set()
@@ -1318,7 +1352,7 @@ def run_xml(tier, seed):
                     continue                    # the file system does not take this name
                 _run_byte_case(col, chk, case, named, named_only=True)
     finally:
-        shutil.rmtree(WORK, ignore_errors=True)
+        _cleanup()
     return _result(col, chk)
 
 
@@ -1719,11 +1753,13 @@ def run_dict(tier, seed):
              'unknown, cased keys) set to each of 26 wrong-typed values and key-specific dates, ids, cardinalities, '
              'dtypes, values; each key removed; list items replaced by wrong types; top-level variations; duplicate '
              'names/ids; random dictionaries; each x DictReader.to_odml strict/lenient, ODMLReader JSON/YAML '
-             'from_string/from_file (YAML from_file is lenient); class = (family, feature, entry)',
+             'from_string/from_file (YAML from_file is lenient; quick tier: YAML on every fifth set-key case); stored '
+             'forms of small valid JSON/YAML files: 8 encodings/marks x escaped/raw/indented or flow x content range x '
+             'line ends x valid/other version/large, 36 file names, through from_file and odml.load with path str and '
+             'pathlib.Path, decoded text through from_string; class = (family, feature, content checksum, entry)',
         exhaustive=False)
     rnd = random.Random('c16-dict-%s' % seed)
-    shutil.rmtree(WORK, ignore_errors=True)
-    os.makedirs(WORK)
+    _fresh_work()
     jpath = os.path.join(WORK, 'input.json')
     ypath = os.path.join(WORK, 'input.yaml')
     chk = _Checker(col, 'C16.dict')
@@ -1731,7 +1767,7 @@ def run_dict(tier, seed):
     def cases():
         for c in _dict_systematic(tier):
             yield c
-        for _ in range(1000 if tier == 'quick' else 40000):
+        for _ in range(1000 if tier == 'quick' else 25000):
             yield _dcase(_rand_dict(rnd), 'random-dict', 'random dictionary over the odML keys')
 
     try:
@@ -1810,5 +1846,5 @@ def run_dict(tier, seed):
                         continue                # the file system does not take this name
                 _run_dict_file(col, chk, item, fpath)
     finally:
-        shutil.rmtree(WORK, ignore_errors=True)
+        _cleanup()
     return _result(col, chk)
